@@ -104,15 +104,8 @@ class Pool:
     # ---- raw inspection of an SU_vector object
     def raw(self, st, k):
         a = self.slot_addr[k]
-        o = st.find(a)
-        off = a - o.base
-
-        def cell(p, size):
-            c = o.cells.get(off + p)
-            if c is None:
-                return None
-            return c[1]
-        return {'dim': cell(0, 4), 'size': cell(4, 4), 'components': cell(8, 8), 'ptr_offset': cell(16, 1), 'isinit': cell(17, 1), 'isinit_d': cell(18, 1)}
+        ld = lambda off, ty: self.ex.load(st, a + off, ty)
+        return {'dim': ld(0, L.I32), 'size': ld(4, L.I32), 'components': ld(8, L.I64), 'ptr_offset': ld(16, L.I8), 'isinit': ld(17, L.I8), 'isinit_d': ld(18, L.I8)}
 
     def values(self, st, k):
         r = self.raw(st, k)
@@ -145,7 +138,7 @@ class Pool:
         c = o.cells.get(0)
         return None if c is None else c[1]
 
-    def quiesce(self, st, live_slots):
+    def quiesce(self, st, live_slots, leaks=True):
         """destroy every live slot, drain the cache; returns (ok, info) with the ledger verdict"""
         cur = [st]
         for k in live_slots:
@@ -161,7 +154,7 @@ class Pool:
                 if r.status != 'ok':
                     return False, 'clear_mem_cache: %s %r' % (r.status, r.info)
                 leaked = r.state.live_heap(('new[]', 'new', 'malloc'))
-                if leaked:
+                if leaked and leaks:
                     return False, 'leak: %d block(s) never released (%s)' % (len(leaked), ', '.join('%s %d bytes' % (o.kind, o.size) for o in leaked[:3]))
         return True, None
 
